@@ -22,6 +22,25 @@ def pg_task(args):
     return r
 
 
+def pg_alpha_task(args):
+    n, outl, proposal, seed = args
+    from replay import exact_kernel as EK, trees as T
+
+    t0 = time.time()
+    data = T.make_data(n, dims=1, grid=4, seed=seed, outlier_p=outl)
+    td = EK.make_tree_dist(2.5)
+    states = T.all_trees(data, outliers_allowed=outl > 0)
+    mv = EK.pg_move_after_alpha_change(proposal, td, 2, 0.5, 0.1 if outl > 0 else 0.0, 0.4, states[-1])
+    name = "pg-after-in-place-alpha-change|n=%d|outliers=%s|%s|alpha 0.4 -> 2.5" % (n, outl > 0, proposal)
+    try:
+        # the proposal caches are NOT cleared by the oracle here (clear_caches is called inside transition_matrix per path, as the run loop does per iteration)
+        r = EK.check_move(name, mv, data, td, outl > 0, tol=TOL)
+    except Exception as e:  # noqa
+        return {"move": name, "ok": False, "error": repr(e), "n_states": 0, "n_paths": 0, "defect": None, "wall": time.time() - t0}
+    r["wall"] = time.time() - t0
+    return r
+
+
 def aux_task(args):
     kind, n, outl, alpha, dims, seed = args
     from replay import exact_kernel as EK, trees as T
